@@ -61,3 +61,13 @@ Proof.
   unfold cpsum. cbn [csum cpown fact Nat.mul Nat.add INR].
   destruct z as [x y]. csimpl. f_equal; field.
 Qed.
+
+(* the four functions as power series sum_n a_n z^n over every n (zero coefficients at the other parity) *)
+Lemma power_series_forms_lemma (z : C) :
+  cconv (cpsum (fun n => RtoC (if Nat.odd n then / INR (fact n) else 0)) z) (csinh z) /\
+  cconv (cpsum (fun n => RtoC (if Nat.even n then / INR (fact n) else 0)) z) (ccosh z) /\
+  cconv (cpsum (fun n => RtoC (if Nat.odd n then (-1) ^ Nat.div2 n / INR (fact n) else 0)) z) (csin z) /\
+  cconv (cpsum (fun n => RtoC (if Nat.even n then (-1) ^ Nat.div2 n / INR (fact n) else 0)) z) (ccos z).
+Proof.
+  exact (conj (csinh_power_series z) (conj (ccosh_power_series z) (conj (csin_power_series z) (ccos_power_series z)))).
+Qed.
